@@ -79,6 +79,18 @@ func (e *Engine) Close() {
 	_ = os.Remove(e.Path + ".previous")
 }
 
+// Reopen closes the database file and opens it again in place (the DbImpl stays the same object), then declares the
+// stores' indexes again the way an application does at start-up.
+func (e *Engine) Reopen() error {
+	if err := e.Db.Close(); err != nil {
+		return err
+	}
+	if err := e.Db.Open(e.Path); err != nil {
+		return err
+	}
+	return e.Sc.InitDb(e.Db)
+}
+
 func DefaultWeights() map[string]int {
 	return map[string]int{"create": 10, "update": 6, "patch": 6, "delete": 5, "deletewhere": 1,
 		"addlinks": 3, "addlink": 1, "removelinks": 2, "removelink": 1, "setlinks": 3, "rcinc": 3, "rcdec": 2, "rcset": 2}
